@@ -50,6 +50,11 @@ fn gen_history(seed: u64, quiet: bool) -> (ExecCfg, Vec<Op>, u64) {
         cfg.merge_policy = false;
         ops.retain(|o| !matches!(o, Op::Merge { .. } | Op::SetPolicy(_)));
     }
+    // half of the histories write multi-block doc stores (see `set_docstore_blocksize`): a
+    // one-shot fault on a `.store` write then hits a block in the middle of a segment, with
+    // later blocks of the same segment written successfully
+    let mut r2 = Rng::new(seed ^ 0x5107_e5b1_0c4b);
+    set_docstore_blocksize(if r2.bool() { *r2.pick(&[24usize, 64, 160, 400]) } else { 0 });
     (cfg, ops, rng.next_u64())
 }
 
@@ -136,7 +141,7 @@ fn child_main(args: &BTreeMap<String, String>) -> ! {
     let (role, kind, fkind, nth, mode) = (sel[0], sel[1], sel[2], sel[3].parse::<u64>().unwrap(), sel[4]);
     let quiet = args.get("shape").map(|s| s == "quiet").unwrap_or(false);
     if args.get("shape").map(|s| s == "bulk").unwrap_or(false) {
-        bulk_child(seed, kind, fkind, nth, mode);
+        bulk_child(seed, role, kind, fkind, nth, mode);
     }
     let (cfg, ops, _) = gen_history(seed, quiet);
     let mon = MonDir::new(MonCfg { monitors: true, keep_payloads: true, ..Default::default() });
@@ -530,7 +535,7 @@ fn child_main(args: &BTreeMap<String, String>) -> ! {
 /// segment is cut by the memory budget, the flush fails) and the client keeps adding more
 /// documents than the bounded pipeline holds, without committing. Every call has to return
 /// (with an error at the latest at commit); nothing may block for ever.
-fn bulk_child(seed: u64, kind: &str, fkind: &str, nth: u64, mode: &str) -> ! {
+fn bulk_child(seed: u64, role: &str, kind: &str, fkind: &str, nth: u64, mode: &str) -> ! {
     let mut rr = Rng::new(seed);
     let threads = 1 + rr.below(2) as usize;
     let cfg = ExecCfg { threads, merge_policy: false, sort: None, budget_per_thread: 15_000_000 };
@@ -549,7 +554,7 @@ fn bulk_child(seed: u64, kind: &str, fkind: &str, nth: u64, mode: &str) -> ! {
         ex.step(&Op::Add(g.doc(&mut rr, 3)));
     }
     ex.step(&Op::Commit);
-    let mut pred = OpPred::kind(kind_from(kind).expect("kind")).role("worker");
+    let mut pred = OpPred::kind(kind_from(kind).expect("kind")).role(role);
     if fkind != "*" {
         pred = pred.fkind(fkind);
     }
@@ -654,22 +659,37 @@ fn bulk_child(seed: u64, kind: &str, fkind: &str, nth: u64, mode: &str) -> ! {
 
 fn bulk_case(case: u64, rng: &mut Rng, rep: &mut Report) {
     let cseed = rng.next_u64();
-    let kind = *rng.pick(&["open_write", "write", "write", "terminate", "flush"]);
-    let nth = match kind {
-        "write" => rng.below(30),
+    // the thread the fault hits: an indexing worker, or the doc store compressor thread of a
+    // worker (every 16 KB block of stored documents is one message to it: a one-shot fault in the
+    // middle of a segment is followed by successful writes of the same segment)
+    let role = *rng.pick(&["worker", "worker", "compressor"]);
+    let kind = if role == "compressor" { *rng.pick(&["write", "write", "write", "terminate"]) } else { *rng.pick(&["open_write", "write", "write", "terminate", "flush"]) };
+    let nth = match (role, kind) {
+        ("compressor", "write") => rng.below(80),
+        (_, "write") => rng.below(30),
+        ("compressor", _) => rng.below(3),
         _ => rng.below(7),
     };
-    let mode = *rng.pick(&["once", "perm"]);
-    let sel = format!("worker:{kind}:*:{nth}:{mode}");
+    let mut mode = *rng.pick(&["once", "perm"]);
+    let (mut role, mut kind, mut nth) = (role, kind, nth);
+    if case % 4 == 3 {
+        // always among the scenarios: a transient failure of a doc store block in the middle of
+        // the bulk segment (writes 0..7 belong to the small segments in front of it)
+        role = "compressor";
+        kind = "write";
+        nth = 8 + rng.below(40);
+        mode = "once";
+    }
+    let sel = format!("{role}:{kind}:*:{nth}:{mode}");
     rep.eval();
     match run_child(cseed, &sel, "bulk", Duration::from_secs(45)) {
         ChildEnd::Inconclusive(e) => rep.note(format!("scenario bulk {sel} inconclusive: {e}")),
         ChildEnd::Signal(sig) => rep.violation(
-            format!("child-aborted:signal-{sig}:bulk:worker:{kind}"),
+            format!("child-aborted:signal-{sig}:bulk:{role}:{kind}"),
             json!({"case": case, "cseed": cseed, "selector": sel}),
         ),
         ChildEnd::Hang(stacks) => rep.violation(
-            format!("child-hung:bulk-adds-after-worker-fault:worker:{kind}"),
+            format!("child-hung:bulk-adds-after-worker-fault:{role}:{kind}"),
             json!({"case": case, "cseed": cseed, "selector": sel, "stacks": stacks,
                    "replay_child": format!("harness/target/verif/c11 --child 1 --cseed {cseed} --sel {sel} --shape bulk")}),
         ),
@@ -695,14 +715,14 @@ fn bulk_case(case: u64, rng: &mut Rng, rep: &mut Report) {
             if fired > 0 {
                 rep.count("bulk_scenarios_where_worker_fault_fired", 1);
                 let first = v["surfaced"][0].as_str().unwrap_or("absorbed").to_string();
-                rep.observe("surfaced_at", format!("bulk:worker:{kind} -> {first}"));
-                rep.nontrivial(format!("bulk:worker:{kind}:{mode}:threads={}:{first}", v["threads"]));
+                rep.observe("surfaced_at", format!("bulk:{role}:{kind} -> {first}"));
+                rep.nontrivial(format!("bulk:{role}:{kind}:{mode}:threads={}:{first}", v["threads"]));
             }
             if let Some(vs) = v["violations"].as_array() {
                 for x in vs {
                     let sig = x[0].as_str().unwrap_or("?").to_string();
                     rep.violation(
-                        format!("bulk:{sig}|fault@worker:{kind}"),
+                        format!("bulk:{sig}|fault@{role}:{kind}"),
                         json!({"case": case, "cseed": cseed, "selector": sel, "detail": x[1], "surfaced": v["surfaced"],
                                "replay_child": format!("harness/target/verif/c11 --child 1 --cseed {cseed} --sel {sel} --shape bulk")}),
                     );
@@ -1051,7 +1071,7 @@ fn main() {
         parent_case(c, rng, rep, 6, true)
     }));
     rep.merge(run_cases(&ctx, "forced-merge-fault", ctx.scale(60, 3000) as u64, forced_merge_fault_case));
-    rep.merge(run_cases(&ctx, "bulk", ctx.scale(32, 600) as u64, bulk_case));
+    rep.merge(run_cases(&ctx, "bulk", ctx.scale(40, 800) as u64, bulk_case));
     rep.merge(run_cases(&ctx, "merge-read-fault", ctx.scale(80, 3000) as u64, merge_read_fault_case));
     simple_finish(
         &ctx,
